@@ -174,6 +174,14 @@ func (p *Prog) encodeFuncWith(fn *ssa.Function, spec *FuncSpec, bindName, bindVa
 		e.assume(t)
 		pre = append(pre, t)
 	}
+	for _, gfact := range p.specs.GlobalFacts {
+		genv := fr.baseEnv(st)
+		genv.pkgPath = gfact.PkgPath
+		if t, err := genv.boolExpr(gfact.Text); err == nil {
+			e.assume(t)
+			e.axiomNames = append(e.axiomNames, "globalfact "+gfact.Label)
+		}
+	}
 	for _, c := range spec.Assumes {
 		t, err := env.boolExpr(c.Text)
 		if err != nil {
@@ -268,6 +276,33 @@ func (e *Enc) finishModelTerms(entry *state) {
 							terms = append(terms, app("select", c, app("+", app("s.base", p.Term), fmt.Sprint(k))))
 						}
 					}
+				}
+			}
+		}
+	}
+	// ghost state at function entry (e.g. the modelled file)
+	for _, name := range sortedKeys(e.p.specs.GhostVars) {
+		gv := e.p.specs.GhostVars[name]
+		c, ok := e.regionConst["ghost:"+name+"@0"]
+		if !ok {
+			continue
+		}
+		switch gv.Type {
+		case "int", "bool":
+			terms = append(terms, c)
+			e.ghostModel = append(e.ghostModel, [2]string{name, c})
+		case "bytes":
+			for k := 0; k < 64; k++ {
+				t := app("select", c, fmt.Sprint(k))
+				terms = append(terms, t)
+				e.ghostModel = append(e.ghostModel, [2]string{fmt.Sprintf("%s[%d]", name, k), t})
+			}
+			// and relative to the ghost file position, if there is one
+			if pc, ok := e.regionConst["ghost:filePos@0"]; ok && name == "fileContent" {
+				for k := 0; k < 64; k++ {
+					t := app("select", c, app("+", pc, fmt.Sprint(k)))
+					terms = append(terms, t)
+					e.ghostModel = append(e.ghostModel, [2]string{fmt.Sprintf("%s[pos+%d]", name, k), t})
 				}
 			}
 		}
